@@ -463,6 +463,9 @@ func (m *Monitor) AfterOp(op Op, s Sample) {
 				injected = true
 			}
 		}
+		if s.Class == "XCancelNoCause" {
+			m.add("C07", "cancel-cause-lost", fmt.Sprintf("%s was cancelled with a cause but returned the bare context.Canceled", op.String()))
+		}
 		if !injected && s.Class != "XCycle" && s.Class != "XLimit" {
 			m.add("C07", "spurious-error", fmt.Sprintf("%s returned %s although nothing failed", op.String(), s.Class))
 		}
